@@ -107,13 +107,16 @@ class ByteArray(SimpleModel):
 
     @classmethod
     def to_base64(cls, value):
-        if isinstance(value, (list, tuple)) and isinstance(value[0], mmap):
+        if isinstance(value, (list, tuple)) and len(value) > 0 \
+                                               and isinstance(value[0], mmap):
             # TODO: be smarter about this
             return b64encode(value[0])
 
         if isinstance(value, (six.binary_type, memoryview, mmap)):
             return b64encode(value)
 
+        # a sequence of chunks, possibly none at all: the text is that of their
+        # concatenation (encoding chunk by chunk would pad in the middle)
         return b64encode(b''.join(value))
 
     @classmethod
